@@ -25,19 +25,20 @@ type c06Case struct {
 	Claims     []string
 	ClaimOwn   bool
 	ExtraVols  []string
+	ClaimNS    string
 	Presence   []int // per (ordinal, template): 0 neither, 1 API only (stale cache), 2 API and cache
 	Fault      world.FaultPlan
 	LookupFail string
 }
 
 func (c c06Case) String() string {
-	return fmt.Sprintf("set=%s %s claims=%v ownlabels=%v templateVolumes=%v presence=%v fault=%v lookupFail=%q", c.Name, c.Policy, c.Claims, c.ClaimOwn, c.ExtraVols, c.Presence, c.Fault, c.LookupFail)
+	return fmt.Sprintf("set=%s %s claims=%v ownlabels=%v templateVolumes=%v claimTemplateNamespace=%q presence=%v fault=%v lookupFail=%q", c.Name, c.Policy, c.Claims, c.ClaimOwn, c.ExtraVols, c.ClaimNS, c.Presence, c.Fault, c.LookupFail)
 }
 
 const c06Ordinals = 3
 
 func (c c06Case) spec() gen.Spec {
-	return gen.Spec{Name: c.Name, Replicas: c06Ordinals, Policy: c.Policy, Strategy: gen.RU(0), Limit: 10, Template: 1, Claims: c.Claims, ClaimOwn: c.ClaimOwn, ExtraVols: c.ExtraVols}
+	return gen.Spec{Name: c.Name, Replicas: c06Ordinals, Policy: c.Policy, Strategy: gen.RU(0), Limit: 10, Template: 1, Claims: c.Claims, ClaimOwn: c.ClaimOwn, ExtraVols: c.ExtraVols, ClaimNS: c.ClaimNS}
 }
 
 func (c c06Case) build(w *world.World) *world.State {
@@ -218,9 +219,12 @@ func init() {
 			claims []string
 			own    bool
 			extra  []string
+			ns     string
 		}
-		lists := []cl{{nil, false, nil}, {[]string{"data"}, false, nil}, {[]string{"data", "logs"}, false, nil}, {[]string{"data"}, true, nil},
-			{[]string{"shared"}, false, []string{"shared", "scratch"}}, {[]string{"data", "logs", "tmp"}, true, []string{"scratch"}}}
+		lists := []cl{{nil, false, nil, ""}, {[]string{"data"}, false, nil, ""}, {[]string{"data", "logs"}, false, nil, ""}, {[]string{"data"}, true, nil, ""},
+			{[]string{"shared"}, false, []string{"shared", "scratch"}, ""}, {[]string{"data", "logs", "tmp"}, true, []string{"scratch"}, ""},
+			// claim templates that carry a metadata.namespace of their own (the CRD does not validate template metadata)
+			{[]string{"data"}, false, nil, "staging"}, {[]string{"data", "logs"}, false, nil, world.NS}}
 		deadline := explore.Deadline(100*time.Second, 15*time.Minute)
 		ch := make(chan func(w *world.World), 256)
 		var wg sync.WaitGroup
@@ -254,7 +258,7 @@ func init() {
 					maxFull = 9
 				}
 				for _, pol := range []string{"Parallel", "OrderedReady"} {
-					base := c06Case{Name: name, Policy: pol, Claims: l.claims, ClaimOwn: l.own, ExtraVols: l.extra}
+					base := c06Case{Name: name, Policy: pol, Claims: l.claims, ClaimOwn: l.own, ExtraVols: l.extra, ClaimNS: l.ns}
 					// presence patterns: full product when small, else all single and pair deviations from "neither" and from "both"
 					var pats [][]int
 					if nClaims <= maxFull {
@@ -325,7 +329,7 @@ func init() {
 				}
 				for k := 0; k < c06Ordinals; k++ {
 					k := k
-					c := c06Case{Name: name, Policy: "OrderedReady", Claims: l.claims, ClaimOwn: l.own, ExtraVols: l.extra}
+					c := c06Case{Name: name, Policy: "OrderedReady", Claims: l.claims, ClaimOwn: l.own, ExtraVols: l.extra, ClaimNS: l.ns}
 					submit(func(w *world.World) { c06History(rep, w, c, k) })
 					c2 := c
 					c2.Policy = "Parallel"
@@ -346,7 +350,7 @@ func init() {
 			rep.AddStates(n, n)
 			rep.Extra["population_grid_cases"] = n
 		}
-		rep.Rule = "the real pod control on the API model: set names {web, web-1, a, x-0-y} x claim-template lists {none, 1, 2, 3 templates, own labels, a template named like a volume of the pod template, extra template volumes} x policy {Parallel: 3 pods created in one reconcile; OrderedReady: the last of 3} x claim presence per (ordinal, template) in {absent, in the API only (stale cache), in API and cache} (full product up to 6 claims, thorough 9; beyond that all single deviations from all-absent and all-present) x a single fault (InternalError, AlreadyExists, lost response) on every claim create and every pod create, and a lookup failure on every claim; plus scale-in at each ordinal followed by scale-out under both policies. Oracle on every created pod: name, namespace, hostname, subdomain, pod-name label, revision label naming a stored revision with the pod's template, controller owner reference, one volume per claim template bound to T-S-i, template volumes kept, every claim exists before the pod create, created claims carry the selector labels, a failed claim create/lookup prevents the pod create; no update/patch/delete on claims; claims keep their identity across scale-in/out. The same monitor also judges every pod create of the shallow population grid of C03 (pods re-created below / above a partition with 1-3 revisions in flight). Non-trivial = at least one write."
+		rep.Rule = "the real pod control on the API model: set names {web, web-1, a, x-0-y} x claim-template lists {none, 1, 2, 3 templates, own labels, a template named like a volume of the pod template, extra template volumes, templates carrying a metadata.namespace of their own} x policy {Parallel: 3 pods created in one reconcile; OrderedReady: the last of 3} x claim presence per (ordinal, template) in {absent, in the API only (stale cache), in API and cache} (full product up to 6 claims, thorough 9; beyond that all single deviations from all-absent and all-present) x a single fault (InternalError, AlreadyExists, lost response) on every claim create and every pod create, and a lookup failure on every claim; plus scale-in at each ordinal followed by scale-out under both policies. Oracle on every created pod: name, namespace, hostname, subdomain, pod-name label, revision label naming a stored revision with the pod's template, controller owner reference, one volume per claim template bound to T-S-i, template volumes kept, every claim exists before the pod create, created claims carry the selector labels, a failed claim create/lookup prevents the pod create; no update/patch/delete on claims; claims keep their identity across scale-in/out. The same monitor also judges every pod create of the shallow population grid of C03 (pods re-created below / above a partition with 1-3 revisions in flight). Non-trivial = at least one write."
 		rep.Validated = rep.States
 		return rep.Finish()
 	})
